@@ -19,3 +19,7 @@ uint32_t vt_mutex_lock(uint32_t *m)
     __CPROVER_assume(*m == 0); *m = 1; ++vt_lock_ops; return 0;
 }
 uint32_t vt_mutex_unlock(uint32_t *m) { *m = 0; return 0; }
+/* reader/writer locks (std::shared_mutex): word 0 = number of readers, word 1 = writer flag */
+uint32_t vt_rwlock_rdlock(uint32_t *m) { if (m[1] != 0) VT_COVER("a reader found the lock write-held (schedule cut)"); __CPROVER_assume(m[1] == 0); ++m[0]; return 0; }
+uint32_t vt_rwlock_wrlock(uint32_t *m) { __CPROVER_assume(m[1] == 0 && m[0] == 0); m[1] = 1; return 0; }
+uint32_t vt_rwlock_unlock(uint32_t *m) { if (m[1]) m[1] = 0; else if (m[0]) --m[0]; return 0; }
